@@ -3,6 +3,10 @@
 ``CrashNode`` and ``PauseNode`` set a ``_crashed`` flag on the target entity.
 When ``_crashed`` is True, ``Event.invoke()`` silently drops events targeting
 that entity (same pattern as cancelled events).
+
+Several crash/pause windows may overlap on one entity, so the flag is backed
+by a depth counter: every window start increments it, every window end
+decrements it, and the entity is up again only when no window is open.
 """
 
 from __future__ import annotations
@@ -18,6 +22,20 @@ if TYPE_CHECKING:
     from happysimulator.faults.fault import FaultContext
 
 logger = logging.getLogger(__name__)
+
+
+def _enter_down(entity: object) -> None:
+    """Open one crash/pause window on ``entity``."""
+    depth = getattr(entity, "_crash_depth", 0) + 1
+    entity._crash_depth = depth  # type: ignore[attr-defined]
+    entity._crashed = True  # type: ignore[attr-defined]
+
+
+def _leave_down(entity: object) -> None:
+    """Close one crash/pause window; the entity is up when none remain open."""
+    depth = max(0, getattr(entity, "_crash_depth", 0) - 1)
+    entity._crash_depth = depth  # type: ignore[attr-defined]
+    entity._crashed = depth > 0  # type: ignore[attr-defined]
 
 
 @dataclass(frozen=True)
@@ -44,7 +62,7 @@ class CrashNode:
         events: list[Event] = []
 
         def crash(e: Event) -> None:
-            entity._crashed = True  # type: ignore[attr-defined]
+            _enter_down(entity)
             logger.info("[FaultInjection] Crashed '%s' at %s", entity_name, e.time)
 
         events.append(
@@ -59,7 +77,7 @@ class CrashNode:
         if self.restart_at is not None:
 
             def restart(e: Event) -> None:
-                entity._crashed = False  # type: ignore[attr-defined]
+                _leave_down(entity)
                 logger.info(
                     "[FaultInjection] Restarted '%s' at %s",
                     entity_name,
@@ -101,11 +119,11 @@ class PauseNode:
         events: list[Event] = []
 
         def pause(e: Event) -> None:
-            entity._crashed = True  # type: ignore[attr-defined]
+            _enter_down(entity)
             logger.info("[FaultInjection] Paused '%s' at %s", entity_name, e.time)
 
         def resume(e: Event) -> None:
-            entity._crashed = False  # type: ignore[attr-defined]
+            _leave_down(entity)
             logger.info("[FaultInjection] Resumed '%s' at %s", entity_name, e.time)
 
         events.append(
